@@ -632,6 +632,51 @@ def run(prog, rep, tier):
     if badv:
         rep.violation(R43, "MAP_TZZ_TO_TZz|values", "MAP_TZZ_TO_TZz: malformed offsets %s" % badv[:4])
 
+    # ------------------------------------------------------------ R4.10 an hour-only zone row never sees more of the line than its full-offset siblings
+    # Rows that share everything up to the zone group form a family: `%:z` (+HH:MM), `%z` (+HHMM) and
+    # `%#z` (+HH).  The hour-only row matches a prefix of what its siblings match, so it is only safe
+    # while a sibling that reads the whole offset searches at least as much of the line: where only the
+    # hour-only row reaches, `+05:30` is read as +05:00 - half an hour off, no error.
+    R410 = rep.rule("R4.10", "in every family of rows differing only in zone notation the full-offset rows search at least as far as the hour-only row")
+    import collections as _col
+    fam_ = _col.defaultdict(list)
+    for i, r_ in enumerate(rows):
+        p_ = r_["fields"]["regex_pattern"]
+        k_ = p_.find("(?P<tz>")
+        if k_ >= 0:
+            fam_[p_[:k_]].append(i)
+    nfam = 0
+    for pre_, members in fam_.items():
+        def _tzg(i_):
+            return next((g_ for g_ in res[i_].get("groups", []) if g_["name"] == "tz"), None)
+        hour_only = [i_ for i_ in members if "%#z" in rows[i_]["fields"]["dtfs"]["fields"]["pattern"] and _tzg(i_) and (_tzg(i_)["max_len"] or 99) <= 5]
+        def _is_full(i_):
+            pat_ = rows[i_]["fields"]["dtfs"]["fields"]["pattern"]
+            g_ = _tzg(i_)
+            if not g_ or not ("%:z" in pat_ or ("%z" in pat_ and "%#z" not in pat_)):
+                return False
+            if g_.get("language"):
+                return all(len(z) >= 5 and z[0] in "+-\u2212" for z in g_["language"])
+            return (g_["min_len"] or 0) >= 5
+        full = [i_ for i_ in members if _is_full(i_)]
+        if not hour_only or not full:
+            continue
+        nfam += 1
+        for t_ in hour_only:
+            eT = rows[t_]["fields"]["range_regex"]["fields"]["end"]
+            for p2 in full:
+                eP = rows[p2]["fields"]["range_regex"]["fields"]["end"]
+                bounded = res[p2].get("anchored_start") and res[p2].get("max_len") is not None and res[p2]["max_len"] <= eP
+                key_ = "row|%s|vs|%s" % (rows[p2]["fields"]["dtfs"]["fields"]["pattern"], pre_[:50])
+                rep.examined(R410, "family %d|rows %d,%d" % (nfam, t_, p2), sample={"hour_only_row": t_, "line": rows[t_]["fields"].get("_line_num"), "searches_to": eT, "full_offset_row": p2,
+                                                                                    "full_line": rows[p2]["fields"].get("_line_num"), "full_searches_to": eP, "full_row_bounded_by_anchor": bool(bounded)})
+                if eP < eT and not bounded:
+                    rep.violation(R410, "%s|%d<%d" % (key_, eP, eT), "DATETIME_PARSE_DATAS[%d] (source line %s, %s) searches bytes 0..%d while its hour-only sibling row %d (source line %s, %%#z) searches 0..%d: "
+                                  "a timestamp whose offset ends between byte %d and %d is matched only by the hour-only row and `+05:30` is read as +05:00" % (
+                                      p2, rows[p2]["fields"].get("_line_num"), rows[p2]["fields"]["dtfs"]["fields"]["pattern"], eP, t_, rows[t_]["fields"].get("_line_num"), eT, eP, eT))
+    if nfam < 20:
+        raise CheckerError("R4.10: only %d zone-notation families found (expected >= 20)" % nfam)
+
     # ------------------------------------------------------------ R4.8 the --tz-offset value itself (lift of C14 R14.4, R14.8)
     # "A timestamp without zone information is read in the --tz-offset zone": the option's parser is part
     # of this property; its structural rules live in C14 and are lifted here.
